@@ -308,6 +308,7 @@ class ProgGen:
         self.n_names = 0
         self.refs: dict[str, dict] = {}
         self.cpd_used = False
+        self.cpd_given = 0.4  # how often disable_eom_mode states correct_phase_drift explicitly
         self.pending: list[dict] = []  # directed follow-ups (motifs) queued by update(); served before random ops
         self.motifs: dict[str, float] = {}  # motif name -> probability of being queued when its trigger is seen
         self.pulse_fn = None   # optional override: (rng, channel spec, phase) -> pulse spec
@@ -634,7 +635,7 @@ class ProgGen:
         if k == "disable_eom_mode":
             n = pick(r, self._pulse_chans(True))
             op = {"op": k, "ch": n}
-            if r.random() < 0.4:
+            if r.random() < self.cpd_given:
                 op["cpd"] = r.random() < 0.7
             return op
         if k == "config_slm_mask":
